@@ -21,11 +21,13 @@ pub fn no_child(_: &[String]) -> i32 {
 pub mod okey;
 pub mod cygen;
 pub mod query;
+pub mod update;
 
 pub fn all() -> Vec<StreamDef> {
     vec![
         okey::def(),
         query::def(),
+        update::def(),
     ]
 }
 
